@@ -829,6 +829,16 @@ def r24_call_shim(src, item, ed, opts):
                     for cn in nodes_of(item, "closure"):
                         if list(cn["range"]) == list(a["range"]) and not cn["inputs"]:
                             env[f"arg{j}_body"] = src.text(*cn["body"])
+                    # an argument that is an iterator chain over a collection (`v.extend(w.iter().rev().cloned())`):
+                    # the collection it walks
+                    root = a["range"]
+                    while True:
+                        inner = [rn for rn in nodes_of(item, "methodcall") if list(rn["range"]) == list(root) and rn["method"] in ("iter", "rev", "cloned", "copied", "into_iter") and not rn["args"]]
+                        if not inner:
+                            break
+                        root = inner[0]["receiver"]
+                    if list(root) != list(a["range"]):
+                        env[f"arg{j}_root"] = src.text(*root)
                 # a receiver that is itself a method call (`a.entry(k).or_insert(v)`): its parts by name
                 for rn in nodes_of(item, "methodcall"):
                     if list(rn["range"]) == list(n["receiver"]):
